@@ -15,6 +15,13 @@ RULES = {
              "in strictness lets one tally be both passed and rejected, or rejects a proposal that can still pass); in each "
              "(threshold kind, expiry) case both functions measure against the same base weight, the rejection side with the "
              "complementary percentage 1 - p",
+    "R04.5": "nothing else decides: on every path of is_passed / is_rejected each decision is the threshold kind, the expiry, "
+             "votes.yes == 0, the quorum test (votes.total() against votes_needed(total_weight, quorum)) or the arm's own final "
+             "comparison in if-form; a constant result is False from is_passed under yes == 0 / quorum not reached, or the "
+             "if-form of the final comparison - any other condition (a veto share, a time window, a special-cased weight) makes "
+             "the decision differ from the documented formula for some tally",
+    "R04.6": "nine decimals are exact: the fixed-point factor F of votes_needed is a multiple of 10^9, so F * weight * p is an "
+             "integer for every percentage with up to nine decimal places and the ceiling division is exact",
 }
 U64 = 2 ** 64 - 1
 U128 = 2 ** 128 - 1
@@ -122,6 +129,7 @@ def run(ctx):
                sites=[(b.file, b.line, b.path)], sample={"result": show(r)[:200], "yes_nonzero_decided": nonzero})
     ctx.floor("R04.1", "is_passed paths that can return true", n, 4)
     check_siblings(ctx, paths)
+    check_decisions(ctx, paths)
     # ---- R04.2 / R04.3
     vb = ctx.facts.bodies.get(VOTES_NEEDED)
     if not ctx.ob("R04.2", "anchor:votes_needed", vb is not None, detail="cw3 votes_needed not found", trivial=True):
@@ -157,6 +165,79 @@ def run(ctx):
             else:
                 why = "numerator %s is not x + F - 1 with F = %d (rounding up requires adding F - 1)" % (n_.show()[:160], F)
         ctx.ob("R04.3", "votes_needed/round-up", good, detail=why, sites=[(vb.file, vb.line, vb.path)], sample={"result": show(r)[:240]})
+        if good:
+            ctx.ob("R04.6", "votes_needed/factor", F % (10 ** 9) == 0, sites=[(vb.file, vb.line, vb.path)],
+                   detail="fixed-point factor %d is not a multiple of 10^9: a percentage with 7 to 9 decimal places is truncated before the "
+                          "ceiling division, so the required Yes weight can come out one vote too low" % F, sample={"F": F})
+
+
+def _final_cmp(t, target):
+    """t is the arm's final comparison `needed <= yes` / `needed < no` (either spelling) -> normalised cmp, else None"""
+    r = norm_cmp(t)
+    if r[0] == "cmp" and r[1] in ("le", "lt") and (r[3] == target or r[2] == target):
+        return r
+    return None
+
+
+def check_decisions(ctx, passed_paths):
+    from .cw3common import IS_REJECTED
+    if IS_REJECTED not in ctx.facts.bodies:
+        return
+    votes = ("field", ("param", "self"), "votes")
+    yes, no = ("field", votes, "yes"), ("field", votes, "no")
+    total = nf(("bin", "add", ("bin", "add", ("bin", "add", yes, no), ("field", votes, "abstain")), ("field", votes, "veto")))
+    n_dec = 0
+    for fn, paths, target in (("is_passed", passed_paths, yes), ("is_rejected", ctx.summarise(IS_REJECTED), no)):
+        for p in paths:
+            k = "%s/%s" % (fn, arm_key(p))
+            yes0 = quorum_missed = None
+            final = None
+            other = []
+            for c in p.conds:
+                t, o = c[0], c[1]
+                if isinstance(o, str) or (isinstance(o, tuple)):
+                    continue                                   # which threshold kind / enum arm
+                if t[0] == "call" and t[1].endswith("is_expired"):
+                    continue
+                if t[0] == "cmp" and t[1] == "eq" and set((t[2], t[3])) == set((yes, ("lit", 0))):
+                    yes0 = o
+                    continue
+                if t[0] == "cmp" and t[1] in ("lt", "le"):
+                    sides = (t[2], t[3])
+                    tot = [x for x in sides if nf(x) == total and not nf(x).inexact]
+                    oth = [x for x in sides if x not in tot]
+                    if len(tot) == 1 and len(oth) == 1 and any(x[0] == "vfield" and x[2] == "ThresholdQuorum" and x[3] == "quorum" for x in walk(oth[0])):
+                        # total < needed decided true, or needed <= total decided false: the quorum is missed
+                        if t[2] == tot[0]:
+                            quorum_missed = o if t[1] == "lt" else None
+                        else:
+                            quorum_missed = (not o) if t[1] == "le" else None
+                        if quorum_missed is None:
+                            other.append("quorum test of unusual strictness: %s = %s" % (show(t)[:140], o))
+                        continue
+                    f = _final_cmp(t, target)
+                    if f is not None:
+                        final = (f, o)
+                        continue
+                other.append("%s = %s" % (show(t)[:160], o))
+            n_dec += 1
+            ctx.ob("R04.5", k + "/decisions", not other, sample={"decisions": "kind, expiry, yes == 0, quorum, final comparison"},
+                   detail="%s decides on a condition that is not part of the documented rule: %s" % (fn, "; ".join(other)[:400]))
+            r = norm_cmp(p.ret)
+            if r[0] == "lit" and isinstance(r[1], bool):
+                if final is not None:
+                    good = True                              # if-form of the final comparison; its strictness is R04.4's business
+                elif fn == "is_passed":
+                    good = r[1] is False and (yes0 is True or quorum_missed is True)
+                else:
+                    good = False
+                ctx.ob("R04.5", k + "/constant %s" % r[1], good,
+                       detail="%s returns the constant %s on a path that is not (yes == 0) / quorum missed / the if-form of its final "
+                              "comparison" % (fn, r[1]), sample={"constant": r[1]})
+            elif fn == "is_passed" and (yes0 is True or quorum_missed is True):
+                ctx.ob("R04.5", k + "/must be false", False,
+                       detail="is_passed can return %s although the path decided yes == 0 or the quorum missed" % show(r)[:120])
+    ctx.floor("R04.5", "decision paths of is_passed / is_rejected", n_dec, 8)
 
 
 def arm_key(p):
